@@ -2502,14 +2502,22 @@ impl StorageEngine {
                     if !expired_keys.is_empty() {
                         let mut shard_guard = shard.write().unwrap();
                         for key in expired_keys {
-                            if let Some(stored_value) = shard_guard.data.remove(&key) {
-                                shard_guard.expiring_keys.remove(&key);
-                                
-                                shard_guard.mark_modified(&key);
-                                
-                                // Update memory usage
-                                let memory_size = engine.calculate_value_size(&key, &stored_value.value);
-                                engine.memory_manager.remove_memory(memory_size);
+                            // Re-check under the write lock: since the scan the key may have been
+                            // overwritten, persisted or given a later deadline by a client
+                            let expired_now = match shard_guard.data.get(&key) {
+                                Some(stored_value) => stored_value.is_expired(),
+                                None => false,
+                            };
+                            if expired_now {
+                                if let Some(stored_value) = shard_guard.data.remove(&key) {
+                                    shard_guard.expiring_keys.remove(&key);
+                                    
+                                    shard_guard.mark_modified(&key);
+                                    
+                                    // Update memory usage
+                                    let memory_size = engine.calculate_value_size(&key, &stored_value.value);
+                                    engine.memory_manager.remove_memory(memory_size);
+                                }
                             }
                         }
                     }
